@@ -217,6 +217,8 @@ func genSequence(c *vh.Ctx, equip bool, dev int) []wireEv {
 		idx = 0
 	}
 	newMsg(false)
+	forceNext := false
+	lastAccept := now
 	emit := func(b e4Block, class string) {
 		w := e4Wire(b)
 		evs = append(evs, wireEv{now: now, t4: t4, lb: w[0], rest: w[1:], class: class})
@@ -225,13 +227,19 @@ func genSequence(c *vh.Ctx, equip bool, dev int) []wireEv {
 		if idx >= len(plan) {
 			newMsg(r.Intn(12) == 0)
 		}
-		now += int64(r.Intn(int(t4)/3 + 1))
-		switch a := r.Intn(100); {
+		a := r.Intn(100)
+		if forceNext {
+			a, forceNext = 0, false
+		} else {
+			now += int64(r.Intn(int(t4)/3 + 1))
+		}
+		switch {
 		case a < 52:
 			b := plan[idx]
 			idx++
 			emit(b, "next")
 			lastGood = &b
+			lastAccept = now
 		case a < 60:
 			if lastGood != nil {
 				emit(*lastGood, "dup")
@@ -287,10 +295,12 @@ func genSequence(c *vh.Ctx, equip bool, dev int) []wireEv {
 			if f.ebit {
 				lastGood = &b
 			}
-		case a < 96: // T4 gap: exactly T4 (still in time), T4+1 (late), or far beyond
-			now += []int64{t4 - int64(r.Intn(int(t4)/3+1)), t4 + 1, t4 + 1, 3 * t4}[r.Intn(4)]
-			if r.Intn(2) == 0 {
-				now -= int64(r.Intn(2))
+		case a < 96: // T4 gap since the last in-sequence block: exactly T4 (in time), T4+1 (late), T4-1, far beyond
+			if now <= lastAccept+t4+1 {
+				now = lastAccept + []int64{t4, t4, t4 + 1, t4 + 1, t4 - 1, 3 * t4}[r.Intn(6)]
+				forceNext = r.Intn(4) != 0 // the boundary only shows when the expected block comes next
+			} else {
+				now += t4 + 1
 			}
 		case a < 98:
 			newMsg(r.Intn(4) == 0)
